@@ -40,6 +40,14 @@ class Expect:
         return self.desc
 
 
+def to_float(fr) -> float:
+    """what CPython's float() gives for the exact decimal value (overflow → inf)"""
+    try:
+        return float(fr)
+    except OverflowError:
+        return float("inf") if fr > 0 else float("-inf")
+
+
 def parse_model_read(got: str):
     """parse the driver's `swcread` output"""
     if got.startswith("error"):
@@ -91,10 +99,10 @@ def expect_read(impl) -> Expect:
             if r["id"] != cols["id"][k] or r["type"] != cols["type"][k] or r["pid"] != cols["pid"][k]:
                 return False
             for c in "xyzr":
-                if float(r[c]) != cols[c][k]:
+                if to_float(r[c]) != cols[c][k]:
                     return False
             for j, v in enumerate(r["extra"]):
-                if float(v) != cols[f"e{j}"][k]:
+                if to_float(v) != cols[f"e{j}"][k]:
                     return False
         return True
 
